@@ -411,6 +411,33 @@ def _run(ck):
                 ctor_sites.append((fn, c, cal))
     gens = [(f, n) for f in bfns for n in H.calls_in(f['body']) if H.is_call_to(n, 'UniqueNameGenerator::new')]
     ck.ob('R16.4', 'one-generator', len(gens) == 1, L.loc(gens[0][1]) if gens else '', '%d UniqueNameGenerator::new() in uigen::binding' % len(gens))
+    # .. and that generator is one instance: every generate(..) is called on the local made by new() or on a `&mut` handed down from it,
+    # and the generator is never copied (a copy does not see the names the original hands out afterwards, nor the other way round)
+    gen_local = None
+    if len(gens) == 1:
+        gl = next((a for a in H.ancestors(gens[0][0], gens[0][1]) if a.get('k') == 'Let'), None)
+        gb = H.pat_bindings(gl['pat']) if gl is not None else []
+        gen_local = gb[0]['hid'] if len(gb) == 1 else None
+    n_g = 0
+    for fn in bfns:
+        bs_ = H.binding_sites(fn)
+        for c in H.calls_in(fn['body']):
+            rt = (L.ty(c['recv'], adjusted=True) or L.ty(c['recv']) or '') if c.get('k') == 'MCall' else ''
+            if c.get('k') == 'MCall' and c.get('m') == 'clone' and 'UniqueNameGenerator' in rt and 'Option' not in rt:
+                ck.ob('R16.4', 'generator-never-copied|%s' % short(fn['path']), False, L.loc(c), '`%s` copies the name generator: names handed out by one copy are unknown to the other, '
+                      'so two functions of the header can get the same name' % pp(c, maxlen=40), fn=fn['path'])
+            if not (c.get('k') == 'MCall' and c.get('m', '').startswith('generate') and 'UniqueNameGenerator' in rt):
+                continue
+            n_g += 1
+            rl = H.root_local(c['recv']) or {}
+            b = bs_.get(rl.get('hid')) or {}
+            ok = (fn is gens[0][0] and rl.get('hid') == gen_local) if gens and b.get('kind') != 'param' else b.get('kind') == 'param'
+            i = sum(1 for c2 in H.calls_in(fn['body']) if c2.get('k') == 'MCall' and c2.get('m', '').startswith('generate') and c2 is not c and H.source_before(c2, c)
+                    and 'UniqueNameGenerator' in (L.ty(c2['recv'], adjusted=True) or L.ty(c2['recv']) or ''))
+            ck.ob('R16.4', 'generate-on-the-one-instance|%s#%d' % (short(fn['path']), i), ok, L.loc(c),
+                  'generate(..) on %s' % ('the generator made by new()' if b.get('kind') != 'param' else 'the generator handed in by the caller') if ok else
+                  'generate(..) is called on `%s`, which is not the generator made by UniqueNameGenerator::new(): its names are not checked against the others' % pp(c['recv'], maxlen=30), fn=fn['path'])
+    ck.floor('R16.4', n_g, 3, 'generate(..) calls in uigen::binding')
     for fn, c, cal in ctor_sites:
         callee_fn = L.fns.get(H.callee(c))
         pidx = name_param_index(callee_fn) if callee_fn else None
@@ -909,3 +936,11 @@ def _shares(ck, L):
                       ' [every return statement is printed, also in dead blocks, and the C++ compiler checks each against the function result type]')
     c05.run(s5)
     ck.floor('R16.2', s5.count, 4, 'shared C05 R5.6 / R5.7 obligations on return types')
+
+    # the header on disk is the one this run built: string literals and functions of an edited source (C15 R15.4 / R15.5)
+    import rules.c15 as c15
+    ck.rule('R16.9', 'the support header on disk is this run\'s: an existing header is kept only if its bytes equal the new output (shared with C15)')
+    s15 = _core.Shared(ck, 'R16.9', lambda r, k: (r == 'R15.4' and k.endswith('|skipped-only-if-same-bytes')) or (r == 'R15.5' and (k in ('header-path-gets-header', 'both-outputs-written') or k.startswith('buffer-starts-empty|'))), 'C15:',
+                       ' [bindings, handlers and string literals live in the header only: a header that is not rewritten denotes the old source]')
+    c15.run(s15)
+    ck.floor('R16.9', s15.count, 3, 'shared C15 R15.4 / R15.5 obligations')
